@@ -83,6 +83,16 @@ reg("C08", "exploration",
     BASE_NOTE + "The reachability model is my reading of the user manual's semantics of observe expressions.",
     "DESIGN.md 3/C08")
 
+reg("C09", "fault_enumeration",
+    "Hypothesis model-based registration histories (multiset model + reachability model) and enumeration of every walk position at which a registration can fail",
+    "hist: generated interleavings of observe add/remove for three handlers (two functions, a bound method) and several "
+    "expressions (text and API form) with graph mutations, owner collection and gc; every pool object is probed after every "
+    "step, notifier populations are compared after balanced histories, the root is finally dropped while downstream objects "
+    "live. fail: for each generated (graph, expression) a bad object is placed at EVERY position of the walk and the failing "
+    "observe() must leave populations and probe results unchanged. dispatch='same' only.",
+    BASE_NOTE + "CPython reference counting is deterministic, so explicit del/gc.collect() steps own the collection schedule.",
+    "DESIGN.md 3/C09")
+
 
 def main():
     props = [json.loads(l) for l in open(os.path.join(ROOT, "properties.jsonl"))]
